@@ -188,11 +188,11 @@ def windowStart : Variant → Period → Int → Int
 
 /-- THE SWITCH: the variant the correspondence driver ties to /repo.  When the fix is applied to
     /repo change `.current` to `.fixed` here (nothing else). -/
-def live : Variant := .current
+def live : Variant := .fixed
 
 /-- SECOND SWITCH: does /repo still dereference the nil amount of a zero-coin infrastructure mint
     (findings/C19-infra-zero-mint-panic.md)?  Change to `false` when that fix is applied. -/
-def liveZeroMintPanics : Bool := true
+def liveZeroMintPanics : Bool := false
 
 /-- the `switch` of mintIncentivePeriods / mintInfrastructurePeriods, case by case, in order -/
 inductive PCase where
